@@ -42,12 +42,14 @@ def gen_program(rng, profile, index=None):
     n = rng.randint(0, 6)
     elems = [rng.randrange(len(VALUES)) for _ in range(n)]
     if direction == 'to_async':
-        src = _w(rng, [('list', 1), ('range', 1), ('generator', 4), ('iterator', 3), ('iterclass', 3)])
+        src = _w(rng, [('list', 1), ('range', 1), ('generator', 4), ('iterator', 3), ('iterclass', 3), ('sized_iterclass', 2)])
     else:
         src = 'agen'
     prog = {'world': 'iter', 'dir': direction, 'src': src, 'elems': elems, 'fail_at': None,
             'delays': [0.0] * (n + 1), 'tick': 4 * Q, 'explicit_loop': rng.random() < 0.5,
             'consumer_delay': _w(rng, [(0.0, 6), (Q, 2), (8 * Q, 1), (0.05, 1)])}
+    if direction == 'to_sync' and prog['explicit_loop'] and rng.random() < 0.5:
+        prog['second_use'] = {'n': rng.randint(0, 3), 'fail': rng.random() < 0.3}   # a 2nd to_sync_iter on the SAME loop
     if src == 'range':
         prog['elems'] = list(range(n))
     if src not in ('list', 'range'):
@@ -75,6 +77,13 @@ class IterClass:
         return v
 
 
+class SizedIterClass(IterClass):
+    """An iterator that also knows its length (a paginated result set, say)."""
+
+    def __len__(self):
+        return len(self.w.values)
+
+
 class IterWorld:
 
     def __init__(self, prog, sch, aa):
@@ -96,6 +105,7 @@ class IterWorld:
         self.src_loop = None
         self.blocked_in_source = False
         self.max_gap_while_waiting = 0.0
+        self.phase2 = False
 
     def viol(self, oracle, sig, detail, **features):
         self.violations.append({'property': 'C16', 'oracle': oracle, 'signature': sig, 'detail': detail,
@@ -158,6 +168,8 @@ class IterWorld:
             return iter(self.gen_source())
         if s == 'iterclass':
             return IterClass(self)
+        if s == 'sized_iterclass':
+            return SizedIterClass(self)
         raise ValueError(s)
 
     # --------------------------------------------------------------- to_async
@@ -236,8 +248,33 @@ class IterWorld:
                 if isinstance(e, S.Abort):
                     raise
                 self.viol('iter.not_exhausted', 'iterator raises again after its end', repr(e))
-            self.finished = True
             self.check_helpers('to_sync_iter')
+            su = self.prog.get('second_use')
+            if su:
+                # state that survives from one use to the next: the caller's loop must still be usable
+                self.phase2 = True
+                vals = [('second', j) for j in range(su['n'])]
+                exc2 = SourceError('second') if su['fail'] else None
+
+                async def agen2():
+                    for v in vals:
+                        await asyncio.sleep(Q)
+                        yield v
+                    if exc2 is not None:
+                        raise exc2
+                got2, term2 = [], 'stop'
+                try:
+                    for x in self.aa.to_sync_iter(agen2(), loop=self.given_loop):
+                        got2.append(x)
+                except BaseException as e:  # noqa
+                    if isinstance(e, S.Abort):
+                        raise
+                    term2 = e
+                if got2 != vals or (term2 is not exc2 if exc2 is not None else term2 != 'stop'):
+                    self.viol('iter.second_use', 'a second iteration on the same caller-supplied loop misbehaves',
+                              f'to_sync_iter(loop=L) twice: second use expected {vals!r} then {exc2!r}, got {got2!r} then {term2!r}')
+                self.check_helpers('to_sync_iter (2nd use)')
+            self.finished = True
         except S.Abort:
             raise
         except BaseException as e:  # noqa
@@ -267,7 +304,8 @@ class IterWorld:
             if self.end in ('quiescent', 'livelock'):
                 self.viol('iter.hang', 'consumer never finishes',
                           f'{p["dir"]} over {p["src"]}: run ended {self.end} at t={sch.clock}; got {self.got!r} of '
-                          f'{self.values!r}, fail_at={p["fail_at"]}', direction=p['dir'])
+                          f'{self.values!r}, fail_at={p["fail_at"]}' + (' (during the 2nd use of the same loop)' if self.phase2 else ''),
+                          direction=p['dir'])
             else:
                 self.violations.append({'property': 'HARNESS', 'oracle': 'harness.' + str(self.end),
                                         'signature': 'unexpected end', 'detail': str(self.end), 'features': {}})
